@@ -127,7 +127,7 @@ def build_one(exe, rng, idx):
                 pkt = h.make_reply(ent, attrs=[])
             h.send("reply %s %s" % (ent[0], pkt.hex()))
         elif r < 0.95:
-            h.send("srvstate %s %d %d" % (rng.choice(order), rng.choice([0, 1, 2, 2, 2, 3, 4]), rng.choice([0, 0, 1, 2, 5, 15, 16])))
+            h.send("srvstate %s %d %d" % (rng.choice(order), rng.choice([0, 1, 2, 2, 2, 3, 4]), rng.choice([0, 0, 1, 2, 5, 15, 16, 255])))
             h.tag("state-set")
         else:
             h.send("reset " + rng.choice(order))
